@@ -129,6 +129,9 @@ def build_program(rng, nexpr, depth):
     """Returns (source, items) with items = [(line, kind, tree, text, size, expected, pc)]"""
     consts = {}
     lines = []
+    if rng.random() < 0.3:
+        # the same program in a segment that is stored somewhere else than where it runs: `*` and labels are run addresses
+        lines.append('.define segment { name = "r" start = $%x pc = $%x }' % (rng.choice([0x1000, 0x0810, 0xC000]), BASE))
     ints, strs = [], []
     for i in range(rng.randrange(3, 7)):
         name = "k%d" % i
